@@ -30,6 +30,15 @@ func (fv *FuncVerifier) constTerm(val constant.Value, t types.Type) (Term, bool)
 		if b, ok := t.Underlying().(*types.Basic); ok && b.Info()&types.IsFloat != 0 {
 			return fv.floatConst(val.ExactString()), true
 		}
+		if _, isTP := t.(*types.TypeParam); isTP {
+			// an integer literal of a type parameter's type: the parameter is an uninterpreted
+			// sort, the literal its image under an uninterpreted embedding of the integers
+			if srt := fv.sortOf(t); srt != nil && srt.Name != "Int" && srt.Kind != KBV {
+				fn := "lit_" + srt.Name
+				fv.u.declare("fun:"+fn, fmt.Sprintf("(declare-fun %s (Int) %s)", fn, srt.Name))
+				return Term{fmt.Sprintf("(%s %s)", fn, intLit(bi).S), srt}, true
+			}
+		}
 		if fv.u.bv {
 			w := 64
 			if b, ok := t.Underlying().(*types.Basic); ok && b.Info()&types.IsInteger != 0 {
